@@ -49,12 +49,14 @@ ExistingKept(pre, post) ==
 
 -----------------------------------------------------------------------------
 (* C01 *)
+(* IDs start at 1: a recorded next ID of 0 is not a usable lock value (it is ignored like an unparsable one) *)
+UsableLock(l) == l >= 1
 LockOK(pre, preLock, cacheUsed) ==
   \/ ~cacheUsed
-  \/ preLock < 0
-  \/ (preLock >= 1 /\ \A r \in RefsOf(pre) : preLock > r)
+  \/ ~UsableLock(preLock)
+  \/ \A r \in RefsOf(pre) : preLock > r
 
-NoLockUsed(preLock, cacheUsed) == ~cacheUsed \/ preLock < 0
+NoLockUsed(preLock, cacheUsed) == ~cacheUsed \/ ~UsableLock(preLock)
 
 UniqueInRange(pre, post, preLock, cacheUsed, maxId) ==
   LockOK(pre, preLock, cacheUsed) =>
